@@ -1,6 +1,7 @@
 """Checks C08 (spec grammar), C10/C11/C12 (metamorphic laws on the implementation), C17 (help),
 C19 (custom values), C20 (determinism, independence)."""
 import copy
+import zlib
 import itertools
 import json
 import os
@@ -1417,6 +1418,15 @@ def check_C20(ctx):
     # model of that (Cmd.fsm_parse_twice, about which RerunProofs proves C20_rerun_same_line and the refutation Q12) is tied
     # to the library here: verdict and bound values of the second run
     two = spec_cases(ctx, ctx.scale(1500, 15000), observable=False, env_prob=0.5, mutate_prob=0.3)
+    # (in two fifths of the programs the valued options are numeric, so that many lines end in a conversion error and the
+    # next line meets containers that were only partly filled: the model of that is Cmd.fsm_parse_state)
+    for k_, c_ in enumerate(two):
+        if zlib.crc32(c_["root"]["spec"].encode("latin-1", "replace")) % 5 < 2:
+            for d_ in c_["root"]["decls"]:
+                if d_["t"] == "opt" and d_["kind"] in ("string", "strings"):
+                    d_["kind"] = {"string": "int", "strings": "ints"}[d_["kind"]]
+                    d_["def"] = ["0"] if d_["kind"] == "int" else []
+            c_["env"] = {k2: "7" for k2 in c_["env"]}
     pairs2 = []
     for k_ in range(1, len(two)):
         if two[k_]["root"]["spec"] == two[k_ - 1]["root"]["spec"] and not any(d["kind"] == "custom" for d in two[k_]["root"]["decls"]):
@@ -1436,6 +1446,7 @@ def check_C20(ctx):
         ctx.count(c)
         a = core.obs_impl(ri[c["id"]])
         m = rm[c["id"]]
+        first_conv = False
         if not isinstance(m, list) or not m or m[0] in ("unknown", "initerr", "fuel", "model-timeout") or a["outcome"][0] == "timeout":
             n_two["unknown"] += 1
             continue
